@@ -3,7 +3,7 @@ from common import Scenario
 
 NAMESPACES = ["-", "-", "a", "/a", "a/b", "/a/"]
 KEYS = ["k", "j", "b/k", "/a/k", "/z", "/a/b/j", "/a", "b", "kk", "_u", "j/"]      # "/a", "b": keys AND namespaces of other keys; "kk": "k" is a string prefix of it; "_u": looks like a private Python attribute; "j/": the relative key j written with a trailing separator
-LOCS = ["/L", "/a/k", "/shared", "/z", "/{r}"]      # "/{r}": a name with a brace field (names are opaque text)
+LOCS = ["/L", "/a/k", "/shared", "/z", "/{r}", "rel/loc"]      # "/{r}": a name with a brace field (names are opaque text); "rel/loc": a remap target spelt without a leading separator (taken verbatim)
 VALS = ["i:0", "i:1", "i:2", "b:1", "b:0", "n", "t:x", "t:y", "o{p=i:1}", "o{p=i:2,q=o{r=t:z}}", "o{q=o{r=i:0}}",
         "o{q=o{r=o{u=i:5}}}"]
 PATHS = ["p", "q.r", "q", "zz", "q.r.u", "q.zz.u"]
